@@ -747,8 +747,13 @@ func (e *Engine) record(st *State, o *Object, off *Term, n int, write bool) {
 	var ids []int
 	if len(st.locks) > 0 {
 		ids = make([]int, 0, len(st.locks))
-		for l := range st.locks {
-			ids = append(ids, l.obj.id<<16+int(l.off))
+		for l, cnt := range st.locks {
+			id := l.obj.id<<16 + int(l.off)
+			if cnt&0xffff == 0 {
+				// held for reading only (RWMutex.RLock): does not exclude other readers
+				id = -id
+			}
+			ids = append(ids, id)
 		}
 		sort.Ints(ids)
 		locks = fmt.Sprint(ids)
